@@ -24,6 +24,7 @@ type SynOpts struct {
 	RRTwin     bool     // add a nonterminal with the same body as an existing alternative (reduce/reduce conflict), declared at a random place
 	SplitMore  bool     // split definitions more often
 	Large      bool     // several family trees under one start symbol: dozens of states and productions
+	DupAlt     bool     // one grammar in three has an alternative written twice in one definition (the first copy wins)
 	Chains     bool     // one grammar in three starts with the chain family (FIRST sets that settle slowly)
 }
 
@@ -437,6 +438,21 @@ func SynGrammar(o SynOpts) *rapid.Generator[*gr.Grammar] {
 		}
 		for i := range b.prods {
 			dedupeAlts(&b.prods[i])
+		}
+		if o.DupAlt && rapid.IntRange(0, 2).Draw(t, "dupAlt") == 0 {
+			// the same alternative twice in one definition (told apart by their
+			// actions only): the copy declared first is the one to reduce by
+			pi := rapid.IntRange(0, len(b.prods)-1).Draw(t, "dupProd")
+			if n := len(b.prods[pi].Alts); n > 0 {
+				ai := rapid.IntRange(0, n-1).Draw(t, "dupAltAt")
+				cp := b.prods[pi].Alts[ai]
+				cp.Syms = append([]gr.Sym{}, cp.Syms...)
+				at := rapid.IntRange(ai+1, n).Draw(t, "dupAltTo")
+				alts := append([]gr.Alt_{}, b.prods[pi].Alts[:at]...)
+				alts = append(alts, cp)
+				alts = append(alts, b.prods[pi].Alts[at:]...)
+				b.prods[pi].Alts = alts
+			}
 		}
 		if o.RRTwin && b.nNT < len(ntNames) && rapid.IntRange(0, 1).Draw(t, "rrTwin") == 0 {
 			// X : … | body | … becomes ambiguous with Z : body wherever X is used:
